@@ -1,13 +1,316 @@
-(** C04 - Period arithmetic agrees with the calendar.  Only statements here; proofs
-    are in proofs/CalProofs.v and proofs/PeriodProofs.v. *)
-From Coq Require Import ZArith List Bool.
-From Verif Require Import Base Cal Tables Period CalProofs.
+(** C04 - Period arithmetic agrees with the calendar.
+    Only statements here; proofs are in proofs/CalProofs.v, proofs/PeriodProofs.v and
+    proofs/PeriodMoreProofs.v.  The model functions ([ord], [add_days], [add_months],
+    [stop], [days], [size_in_*], [contains], [intersection], [subperiods], [offset],
+    [this_year] ...) are those of model/Cal.v and model/Period.v, the very definitions the
+    correspondence check (corr/Corr_C04.v) runs against the implementation.  The
+    specification vocabulary ([next_day], [end_excl], [first_ord], [last_ord], [day_in],
+    [wf], [aligned], [same_family], [count_in], [size_in], [eff_unit], [no_clip],
+    [days_of], [months_of]) is in model/PeriodSpec.v.
+
+    A date [c] is identified with its day number [ord c] ([ord] is a bijection between
+    valid dates and the integers >= 1: [ord_of_ord_inverse], [ord_injective]), and a
+    period [p] denotes the set of day numbers [day_in p].  All theorems hold for every
+    year >= 1 and every size >= 1, without upper bounds. *)
+From Coq Require Import ZArith List Bool Lia.
+From Verif Require Import Base Cal Tables Period PeriodSpec CalProofs PeriodProofs PeriodMoreProofs.
+Import ListNotations.
 Open Scope Z_scope.
+
+(** * 1. The calendar: [ord] counts days *)
+
+Theorem ord_epoch : ord (1, 1, 1) = 1.
+Proof. exact CalProofs.ord_epoch. Qed.
+Print Assumptions ord_epoch.
+
+(** [next_day] is written from the Gregorian rules (month lengths, leap years) alone *)
+Theorem ord_next_day : forall c, valid c -> valid (next_day c) /\ ord (next_day c) = ord c + 1.
+Proof. exact CalProofs.ord_next_day. Qed.
+Print Assumptions ord_next_day.
+Example ord_next_day_nonvacuous :
+  valid (2023, 2, 28) /\ next_day (2023, 2, 28) = (2023, 3, 1) /\ next_day (2024, 2, 28) = (2024, 2, 29)
+  /\ valid (1900, 12, 31) /\ next_day (1900, 12, 31) = (1901, 1, 1).
+Proof. repeat split. Qed.
 
 Theorem ord_of_ord_inverse : forall n, 1 <= n -> ord (of_ord n) = n /\ valid (of_ord n).
 Proof. exact of_ord_spec. Qed.
 Print Assumptions ord_of_ord_inverse.
+Example ord_of_ord_inverse_nonvacuous : 1 <= 738946 /\ of_ord 738946 = (2024, 2, 29).
+Proof. split; [lia | reflexivity]. Qed.
+
+Theorem of_ord_ord_inverse : forall c, valid c -> of_ord (ord c) = c.
+Proof. exact of_ord_ord. Qed.
+Print Assumptions of_ord_ord_inverse.
+Example of_ord_ord_inverse_nonvacuous : valid (2000, 2, 29).
+Proof. reflexivity. Qed.
 
 Theorem ord_injective : forall a b, valid a -> valid b -> ord a = ord b -> a = b.
 Proof. exact ord_inj. Qed.
 Print Assumptions ord_injective.
+Example ord_injective_nonvacuous : valid (2024, 2, 29) /\ valid (of_ord 738946) /\ ord (2024, 2, 29) = ord (of_ord 738946).
+Proof. repeat split. Qed.
+
+(** the tuple order used by [Instant] comparisons is the order of day numbers *)
+Theorem ord_strictly_monotone : forall a b, valid a -> valid b -> (date_ltb a b = true <-> ord a < ord b).
+Proof. exact ord_lt_iff. Qed.
+Print Assumptions ord_strictly_monotone.
+
+Theorem ord_monotone : forall a b, valid a -> valid b -> (date_leb a b = true <-> ord a <= ord b).
+Proof. exact ord_le_iff. Qed.
+Print Assumptions ord_monotone.
+Example ord_monotone_nonvacuous :
+  valid (1999, 12, 31) /\ valid (2000, 1, 1) /\ date_ltb (1999, 12, 31) (2000, 1, 1) = true.
+Proof. repeat split. Qed.
+
+Theorem add_days_spec : forall c n, valid c -> 1 <= ord c + n ->
+  valid (add_days c n) /\ ord (add_days c n) = ord c + n.
+Proof. exact add_days_ord. Qed.
+Print Assumptions add_days_spec.
+
+Theorem add_days_one : forall c, valid c -> add_days c 1 = next_day c.
+Proof. exact add_days_1. Qed.
+Print Assumptions add_days_one.
+Example add_days_spec_nonvacuous :
+  valid (2024, 3, 1) /\ 1 <= ord (2024, 3, 1) + (-1) /\ add_days (2024, 3, 1) (-1) = (2024, 2, 29).
+Proof. split; [reflexivity|]. split; [vm_compute; discriminate | reflexivity]. Qed.
+
+(** ISO weekdays (Monday = 1) repeat with period 7 *)
+Theorem isoweekday_range : forall c, 1 <= isoweekday c <= 7.
+Proof. exact CalProofs.isoweekday_range. Qed.
+Print Assumptions isoweekday_range.
+
+Theorem isoweekday_next_day : forall c, valid c -> isoweekday (next_day c) = isoweekday c mod 7 + 1.
+Proof. exact isoweekday_next. Qed.
+Print Assumptions isoweekday_next_day.
+
+Theorem weekday_period_7 : forall c n, valid c -> 1 <= ord c + 7 * n ->
+  isoweekday (add_days c (7 * n)) = isoweekday c.
+Proof. exact CalProofs.weekday_period_7. Qed.
+Print Assumptions weekday_period_7.
+Example weekday_period_7_nonvacuous :
+  valid (2024, 1, 1) /\ 1 <= ord (2024, 1, 1) + 7 * (-3) /\ isoweekday (2024, 1, 1) = 1
+  /\ isoweekday (1, 1, 1) = 1.
+Proof. split; [reflexivity|]. split; [vm_compute; discriminate | split; reflexivity]. Qed.
+
+Theorem start_of_week_spec : forall c, valid c ->
+  valid (start_of_week c) /\ isoweekday (start_of_week c) = 1
+  /\ ord (start_of_week c) <= ord c < ord (start_of_week c) + 7.
+Proof. exact CalProofs.start_of_week_spec. Qed.
+Print Assumptions start_of_week_spec.
+Example start_of_week_spec_nonvacuous : valid (2021, 1, 3) /\ start_of_week (2021, 1, 3) = (2020, 12, 28).
+Proof. split; reflexivity. Qed.
+
+(** * 2. Spans: a period is the days from its start to [start + size units] minus one *)
+
+(** [end_excl p] is the model's [Instant.offset(size, unit)] of the start (month-end
+    clipping as [add_months] does it, i.e. as pendulum does) *)
+Theorem end_excl_is_offset : forall p, p_unit p <> Eternity ->
+  instant_offset (p_start p) (p_size p) (p_unit p) = Ok (end_excl p).
+Proof. exact end_excl_offset. Qed.
+Print Assumptions end_excl_is_offset.
+
+(** every unit: [ord (stop p) = ord (start + size.unit) - 1], and [stop p] is a real date *)
+Theorem stop_spec : forall p, wf p -> valid (stop p) /\ ord (stop p) = ord (end_excl p) - 1.
+Proof. exact PeriodProofs.stop_spec. Qed.
+Print Assumptions stop_spec.
+Example stop_spec_nonvacuous :
+  wf (Month, (2024, 1, 31), 1) /\ stop (Month, (2024, 1, 31), 1) = (2024, 2, 28)
+  /\ wf (Week, (2020, 12, 28), 1) /\ stop (Week, (2020, 12, 28), 1) = (2021, 1, 3)
+  /\ wf (Year, (2024, 2, 29), 1) /\ stop (Year, (2024, 2, 29), 1) = (2025, 2, 27).
+Proof. unfold wf; cbn; repeat split; try discriminate; try lia. Qed.
+
+(** the period is non-empty; [stop] is its last day *)
+Theorem stop_is_last_day : forall p, wf p ->
+  day_in p (first_ord p) /\ day_in p (ord (stop p)) /\ ~ day_in p (ord (stop p) + 1).
+Proof. exact stop_last_day. Qed.
+Print Assumptions stop_is_last_day.
+
+(** [Period.days] is the number of days of the span *)
+Theorem days_spec : forall p, wf p -> days p = last_ord p - first_ord p + 1 /\ 1 <= days p.
+Proof. exact PeriodProofs.days_spec. Qed.
+Print Assumptions days_spec.
+Example days_spec_nonvacuous : wf (Year, (2024, 1, 1), 1) /\ days (Year, (2024, 1, 1), 1) = 366.
+Proof. unfold wf; cbn; repeat split; try discriminate; lia. Qed.
+
+(** size expressed in an equal or smaller unit of the same family = number of such
+    pieces ([count_in]; [subperiods_tile] below shows there are exactly that many) *)
+Theorem size_in_spec : forall p u, wf p -> same_family (p_unit p) u = true ->
+  size_in u p = Ok (count_in p u).
+Proof. exact PeriodMoreProofs.size_in_spec. Qed.
+Print Assumptions size_in_spec.
+Example size_in_spec_nonvacuous :
+  wf (Month, (2023, 12, 1), 3) /\ same_family Month Day = true
+  /\ size_in_days (Month, (2023, 12, 1), 3) = Ok 91.
+Proof. unfold wf; cbn; repeat split; try discriminate; lia. Qed.
+
+(** * 3. Containment and intersection are those of the day sets *)
+
+Theorem contains_spec : forall p q, wf p -> wf q ->
+  (contains p q = true <-> forall d, day_in q d -> day_in p d).
+Proof. exact contains_subset. Qed.
+Print Assumptions contains_spec.
+
+Theorem contains_bounds : forall p q, wf p -> wf q ->
+  (contains p q = true <-> first_ord p <= first_ord q /\ last_ord q <= last_ord p).
+Proof. exact PeriodProofs.contains_spec. Qed.
+Print Assumptions contains_bounds.
+Example contains_spec_nonvacuous :
+  wf (Year, (2024, 1, 1), 1) /\ wf (Week, (2024, 12, 30), 1) /\ wf (Month, (2024, 2, 1), 1)
+  /\ contains (Year, (2024, 1, 1), 1) (Week, (2024, 12, 30), 1) = false
+  /\ contains (Year, (2024, 1, 1), 1) (Month, (2024, 2, 1), 1) = true.
+Proof. unfold wf; cbn; repeat split; try discriminate; lia. Qed.
+
+(** [intersection p a b] ([None] bound = open on that side, [a <= b]): the result
+    denotes exactly the days of [p] within [a, b] - through its own re-derived unit and
+    size - and it is [None] exactly when there is no such day *)
+Theorem intersection_spec : forall p a b,
+  wf p -> opt_valid a -> opt_valid b ->
+  opt_ord a (first_ord p) <= opt_ord b (last_ord p) ->
+  let in_range d := opt_ord a (first_ord p) <= d <= opt_ord b (last_ord p) in
+  match intersection p a b with
+  | None => forall d, ~ (day_in p d /\ in_range d)
+  | Some r => wf r /\ (exists d, day_in r d) /\ forall d, day_in r d <-> (day_in p d /\ in_range d)
+  end.
+Proof. exact intersection_days. Qed.
+Print Assumptions intersection_spec.
+Example intersection_spec_nonvacuous :
+  let p := (Year, (2023, 1, 1), 2) in
+  wf p /\ valid (2023, 12, 1) /\ valid (2024, 2, 29) /\ ord (2023, 12, 1) <= ord (2024, 2, 29)
+  /\ intersection p (Some (2023, 12, 1)) (Some (2024, 2, 29)) = Some (Month, (2023, 12, 1), 3)
+  /\ intersection p (Some (2025, 1, 1)) (Some (2025, 1, 2)) = None.
+Proof. unfold wf; cbn; repeat split; try discriminate; lia. Qed.
+
+(** * 4. Sub-periods tile the period *)
+
+(** aligned start, same family, equal or smaller unit: the list has [count_in p u]
+    elements, all of unit [u] and size one; a day belongs to [p] iff it belongs to some
+    piece; pieces are in increasing order, pairwise disjoint, and consecutive pieces are
+    adjacent *)
+Theorem subperiods_tile : forall p u,
+  wf p -> same_family (p_unit p) u = true -> aligned u (p_start p) ->
+  exists l, subperiods p u = Ok l
+    /\ Z.of_nat (length l) = count_in p u
+    /\ Forall (fun q => p_unit q = u /\ p_size q = 1 /\ wf q) l
+    /\ (forall d, day_in p d <-> exists q, In q l /\ day_in q d)
+    /\ (forall i j q q', (i < j)%nat -> nth_error l i = Some q -> nth_error l j = Some q' ->
+          last_ord q + 1 <= first_ord q' /\ (S i = j -> last_ord q + 1 = first_ord q')).
+Proof. exact subperiods_partition. Qed.
+Print Assumptions subperiods_tile.
+Example subperiods_tile_nonvacuous :
+  wf (Month, (2024, 2, 1), 1) /\ same_family Month Day = true /\ aligned Day (2024, 2, 1)
+  /\ rmap (@length _) (subperiods (Month, (2024, 2, 1), 1) Day) = Ok 29%nat
+  /\ wf (Week, (2024, 12, 30), 2) /\ same_family Week Week = true /\ aligned Week (2024, 12, 30)
+  /\ subperiods (Week, (2024, 12, 30), 2) Week = Ok [(Week, (2024, 12, 30), 1); (Week, (2025, 1, 6), 1)]
+  /\ wf (Year, (2023, 1, 1), 2) /\ same_family Year Month = true /\ aligned Month (2023, 1, 1)
+  /\ rmap (@length _) (subperiods (Year, (2023, 1, 1), 2) Month) = Ok 24%nat.
+Proof. unfold wf; repeat split; try discriminate; try reflexivity; cbn; lia. Qed.
+
+(** * 5. Shifting by n units, then by -n units *)
+
+(** day, weekday and week shifts are always undone (as long as the shifted date exists,
+    i.e. is not before 0001-01-01) *)
+Theorem offset_inverse_days : forall p n u,
+  valid (p_start p) ->
+  let eu := eff_unit p u in
+  eu = Day \/ eu = Weekday \/ eu = Week ->
+  1 <= ord (p_start p) + days_of eu n ->
+  exists q, offset p n u = Ok q
+    /\ p_unit q = p_unit p /\ p_size q = p_size p
+    /\ valid (p_start q) /\ ord (p_start q) = ord (p_start p) + days_of eu n
+    /\ offset q (- n) u = Ok p.
+Proof. exact PeriodMoreProofs.offset_inverse_days. Qed.
+Print Assumptions offset_inverse_days.
+Example offset_inverse_days_nonvacuous :
+  let p := (Month, (2024, 1, 31), 1) in
+  valid (p_start p) /\ eff_unit p (Some Week) = Week /\ 1 <= ord (p_start p) + days_of Week (-5)
+  /\ offset p (-5) (Some Week) = Ok (Month, (2023, 12, 27), 1).
+Proof. cbn; repeat split; lia. Qed.
+
+(** month and year shifts are undone exactly when the first shift does not clip the
+    day-of-month ([no_clip]: day <= length of the target month) *)
+Theorem offset_inverse_months : forall p n u,
+  valid (p_start p) ->
+  let eu := eff_unit p u in
+  eu = Month \/ eu = Year ->
+  exists q, offset p n u = Ok q
+    /\ p_unit q = p_unit p /\ p_size q = p_size p
+    /\ p_start q = add_months (p_start p) (months_of eu n)
+    /\ (offset q (- n) u = Ok p <-> no_clip (p_start p) (months_of eu n)).
+Proof. exact PeriodMoreProofs.offset_inverse_months. Qed.
+Print Assumptions offset_inverse_months.
+Example offset_inverse_months_nonvacuous :
+  let p := (Day, (2024, 1, 31), 1) in
+  valid (p_start p) /\ eff_unit p (Some Month) = Month
+  /\ no_clip (p_start p) 2 /\ ~ no_clip (p_start p) 1
+  /\ offset p 1 (Some Month) = Ok (Day, (2024, 2, 29), 1)
+  /\ offset (Day, (2024, 2, 29), 1) (-1) (Some Month) = Ok (Day, (2024, 1, 29), 1).
+Proof. cbn; repeat split; lia. Qed.
+
+(** * 6. Named reference periods, relative to the start (y, m, d) of the period *)
+
+Theorem this_year_spec : forall u y m d n, this_year (u, (y, m, d), n) = Ok (Year, (y, 1, 1), 1).
+Proof. exact PeriodMoreProofs.this_year_spec. Qed.
+Print Assumptions this_year_spec.
+
+Theorem last_year_spec : forall u y m d n, last_year (u, (y, m, d), n) = Ok (Year, (y - 1, 1, 1), 1).
+Proof. exact PeriodMoreProofs.last_year_spec. Qed.
+Print Assumptions last_year_spec.
+
+Theorem n_2_spec : forall u y m d n, n_2 (u, (y, m, d), n) = Ok (Year, (y - 2, 1, 1), 1).
+Proof. exact PeriodMoreProofs.n_2_spec. Qed.
+Print Assumptions n_2_spec.
+
+Theorem first_month_spec : forall u y m d n, first_month (u, (y, m, d), n) = Ok (Month, (y, m, 1), 1).
+Proof. exact PeriodMoreProofs.first_month_spec. Qed.
+Print Assumptions first_month_spec.
+
+Theorem first_day_spec : forall u s n, first_day (u, s, n) = Ok (Day, s, 1).
+Proof. exact PeriodMoreProofs.first_day_spec. Qed.
+Print Assumptions first_day_spec.
+
+Theorem first_weekday_spec : forall u s n, first_weekday (u, s, n) = Ok (Weekday, s, 1).
+Proof. exact PeriodMoreProofs.first_weekday_spec. Qed.
+Print Assumptions first_weekday_spec.
+
+Theorem last_month_spec : forall u y m d n, 1 <= m <= 12 ->
+  last_month (u, (y, m, d), n)
+  = Ok (Month, (if m =? 1 then (y - 1, 12, 1) else (y, m - 1, 1)), 1).
+Proof. exact PeriodMoreProofs.last_month_spec. Qed.
+Print Assumptions last_month_spec.
+Example last_month_spec_nonvacuous : last_month (Year, (2024, 1, 15), 1) = Ok (Month, (2023, 12, 1), 1).
+Proof. reflexivity. Qed.
+
+(** the three whole months ending the day before the start's month begins *)
+Theorem last_3_months_spec : forall u y m d n, 1 <= m <= 12 ->
+  exists s, last_3_months (u, (y, m, d), n) = Ok (Month, s, 3)
+    /\ s = add_months (y, m, 1) (-3)
+    /\ end_excl (Month, s, 3) = (y, m, 1).
+Proof. exact PeriodMoreProofs.last_3_months_spec. Qed.
+Print Assumptions last_3_months_spec.
+Example last_3_months_spec_nonvacuous : last_3_months (Day, (2024, 2, 29), 1) = Ok (Month, (2023, 11, 1), 3).
+Proof. reflexivity. Qed.
+
+(** the ISO week (Monday to Sunday) containing the start *)
+Theorem first_week_spec : forall p, valid (p_start p) ->
+  exists mo, first_week p = Ok (Week, mo, 1) /\ mo = start_of_week (p_start p)
+    /\ valid mo /\ isoweekday mo = 1 /\ ord mo <= ord (p_start p) < ord mo + 7.
+Proof. exact PeriodMoreProofs.first_week_spec. Qed.
+Print Assumptions first_week_spec.
+Example first_week_spec_nonvacuous : first_week (Day, (2021, 1, 3), 1) = Ok (Week, (2020, 12, 28), 1).
+Proof. reflexivity. Qed.
+
+(** last_week (1 week, 1 back), last_fortnight (1, 2), last_2_weeks (2, 2),
+    last_26_weeks (26, 26), last_52_weeks (52, 52): [sz] weeks starting on the Monday
+    [k] weeks before the Monday of the start's week *)
+Theorem last_weeks_spec : forall p f sz k, valid (p_start p) ->
+  In (f, sz, k) [(last_week, 1, 1); (last_fortnight, 1, 2); (last_2_weeks, 2, 2);
+                 (last_26_weeks, 26, 26); (last_52_weeks, 52, 52)] ->
+  1 <= ord (start_of_week (p_start p)) - 7 * k ->
+  exists mo, f p = Ok (Week, mo, sz)
+    /\ valid mo /\ isoweekday mo = 1 /\ ord mo = ord (start_of_week (p_start p)) - 7 * k.
+Proof. exact PeriodMoreProofs.last_weeks_spec. Qed.
+Print Assumptions last_weeks_spec.
+Example last_weeks_spec_nonvacuous :
+  valid (2021, 1, 3) /\ 1 <= ord (start_of_week (2021, 1, 3)) - 7 * 52
+  /\ last_52_weeks (Day, (2021, 1, 3), 1) = Ok (Week, (2019, 12, 30), 52).
+Proof. split; [reflexivity|]. split; [vm_compute; discriminate | reflexivity]. Qed.
